@@ -56,6 +56,36 @@ def run(tier, seed):
         for k in range(1, 9):
             run_one(b + rng.randbytes(k), "suffix", "reject")
             run_one(b + bytes(k), "suffix", "reject")
+    # extension maps (and COSE-key-shaped maps) whose text keys / values are strings that some normalisation would change, and maps nested deep (but canonically):
+    # every one is laid-out authenticator data and parses to exactly its bytes
+    tricky_exts = []
+    for t in fw.TRICKY_STRINGS:
+        tricky_exts += [{t: 1}, {"k": t}, {"a": {t: [t, {t: t}]}}, {t: t.encode("utf-8")}]
+    for depth in (10, 100, 200):
+        v = 1
+        for _ in range(depth):
+            v = [v]
+        tricky_exts.append({"deep": v})
+        v = 1
+        for _ in range(depth):
+            v = {"m": v}
+        tricky_exts.append(v)
+    for i, e in enumerate(tricky_exts):
+        ext = cbor2.dumps(e)
+        rp = rng.randbytes(32)
+        good_key = cbor2.dumps({1: 2, 3: -7, -1: 1, -2: bytes(32), -3: bytes(32)})
+        for with_at in (False, True):
+            fl = 0x81 | (0x40 if with_at else 0)
+            b = rp + bytes([fl]) + b"\x00\x00\x00\x07" + ((bytes(16) + b"\x00\x02id" + good_key) if with_at else b"") + ext
+            run_one(b, "tricky-extension", {"rp": rp, "flags": fl, "count": 7, "att": (bytes(16), b"id", good_key) if with_at else None, "ext": ext})
+            run_one(b + b"\x00", "tricky-extension-suffix", "reject")
+    # nesting depth ladder (arrays, maps, mixed) up to well beyond the interpreter's recursion limit: whatever happens, it is a record or a library exception
+    for depth in (400, 700, 900, 950, 990, 1000, 1010, 1100, 1300, 1490, 1500, 3000, 20000):
+        for open_, leaf in ((b"\x81", b"\x00"), (b"\xa1\x61\x6d", b"\x00"), (b"\xa1\x61\x6d\x81", b"\x00")):
+            item = open_ * depth + leaf
+            for hdr in (rng.randbytes(32) + b"\x81\x00\x00\x00\x01", rng.randbytes(32) + b"\xc1\x00\x00\x00\x01" + bytes(16) + b"\x00\x02id" + cbor2.dumps({1: 2, 3: -7, -1: 1, -2: bytes(32), -3: bytes(32)})):
+                run_one(hdr + item, "deep-extension")
+                run_one(hdr + b"\xa1\x61\x64" + item, "deep-extension")
     # bad-EdDSA quirk layouts
     bad = bytes.fromhex("a301634f4b500327206745643235353139") + bytes.fromhex("215820") + rng.randbytes(32)
     for cid_len in (0, 16, 70):
